@@ -145,7 +145,8 @@ func (r *Response) send_all(buf string) {
 
 //Error set status_code
 func (r *Response) Error(code int) {
-	r.con.set_status_code(code)
+	// every connection starts with status 200, which set_status_code never replaces
+	r.con.status_code = code
 }
 
 //GetCon get
